@@ -17,11 +17,11 @@ EXTENDS MagicRobot, Json, IOUtils, TLCExt
 
 CONSTANTS Prop
 
-VARIABLES tid, l, verdict, vkind, vnew, seen, adopted, lastSw
+VARIABLES tid, l, verdict, vkind, vnew, seen, adopted, lastSw, mon
 
 Batch == JsonDeserialize(IOEnv.TRACE_FILE)
 T == Batch[tid]
-tvars == <<rvars, tid, l, verdict, vkind, vnew, seen, adopted, lastSw>>
+tvars == <<rvars, tid, l, verdict, vkind, vnew, seen, adopted, lastSw, mon>>
 
 ToSet(seq) == {seq[i] : i \in 1..Len(seq)}
 Layout(j) == [comps |-> j.comps, has |-> j.has, resets |-> j.resets, plain |-> j.plain,
@@ -29,7 +29,7 @@ Layout(j) == [comps |-> j.comps, has |-> j.has, resets |-> j.resets, plain |-> j
               teleAuto |-> j.teleAuto, modes |-> ToSet(j.modes), defmode |-> j.defmode, period |-> j.period]
 
 TInit == /\ tid \in 1..Len(Batch) /\ l = 1 /\ verdict = "" /\ vkind = "" /\ vnew = FALSE /\ seen = {}
-         /\ adopted = 0 /\ lastSw = FALSE
+         /\ adopted = 0 /\ lastSw = FALSE /\ mon = [lastM |-> "", prevEnabled |-> FALSE, afterWake |-> FALSE, bad |-> ""]
          /\ Init(Layout(Batch[tid].shape), Batch[tid].fms)
 
 J(v) == ToJson(v)
@@ -77,6 +77,23 @@ Adopt(ev, d) ==      \* take over observed data so that later clauses are still 
     /\ UNCHANGED <<sh, ds, fms, exit, selStr, pc, mode, todo, fbleft, en, nsetup, active, iterNo, mIter,
                    nfault, swallowed>>
 
+(* ---- monitors: predicates over the recorded events only (no specification state), so that they keep
+        judging a trace after its lock-step comparison ended with a FOREIGN verdict ---- *)
+\* C10: the first callback after an enabled-mode iteration finds every will_reset_to attribute at its default
+MonStep(ev) ==
+    CASE ev.e = "cb" ->
+            [lastM |-> ev.m, prevEnabled |-> mon.prevEnabled, afterWake |-> FALSE,
+             bad |-> IF mon.afterWake /\ mon.prevEnabled
+                        /\ \E c \in CompSet : \E a \in DOMAIN sh.resets[c] : ev.vals[c][a] # sh.resets[c][a]
+                     THEN "mon:reset_attribute_survived_iteration" ELSE ""]
+      [] ev.e = "wait" -> [mon EXCEPT !.prevEnabled = (mon.lastM \in {"auto", "teleop"}), !.bad = ""]
+      [] ev.e = "wake" -> [mon EXCEPT !.afterWake = TRUE, !.bad = ""]
+      [] OTHER -> [mon EXCEPT !.bad = ""]
+MonOwner(m) == {"C10"}
+MonMismatch(ev, m1) ==
+    Verdict("MISMATCH", [v |-> "MISMATCH", tid |-> T.id, l |-> l, clauses |-> {m1.bad}, br |-> <<pc, mode>>,
+                         exp |-> [defaults |-> sh.resets], obs |-> ev])
+
 Consume ==
     LET ev == T.steps[l].in
         d  == DataDiffs(ev) \ (IF adopted = l THEN {"inj"} ELSE {})
@@ -108,11 +125,23 @@ Consume ==
             THEN Verdict("ACCEPT", [v |-> "ACCEPT", tid |-> T.id, n |-> l, seen |-> seen', adopted |-> adopted # 0])
             ELSE NoVerdict
 
+\* after a FOREIGN verdict only the monitors keep running
+MonTail ==
+    LET ev == T.steps[l].in  m1 == MonStep(ev) IN
+    /\ mon' = m1 /\ UNCHANGED rvars /\ UNCHANGED <<seen, adopted, lastSw>> /\ l' = l + 1
+    /\ IF m1.bad # "" /\ Owned(MonOwner(m1.bad)) THEN MonMismatch(ev, m1) ELSE NoVerdict
+
 TStep ==
-    /\ vkind = "" /\ l <= Len(T.steps)
-    /\ IF SilentEnabled
-       THEN Silent /\ UNCHANGED <<l, seen, adopted, lastSw>> /\ NoVerdict
-       ELSE Consume
+    /\ l <= Len(T.steps)
+    /\ \/ /\ vkind = ""
+          /\ IF SilentEnabled
+             THEN Silent /\ UNCHANGED <<l, seen, adopted, lastSw, mon>> /\ NoVerdict
+             ELSE LET ev == T.steps[l].in  m1 == MonStep(ev) IN
+                  IF m1.bad # "" /\ Owned(MonOwner(m1.bad)) /\ EvEnabled(ev) /\ DataDiffs(ev) = {}
+                  THEN /\ mon' = m1 /\ UNCHANGED rvars /\ UNCHANGED <<seen, adopted, lastSw>> /\ l' = l + 1
+                       /\ MonMismatch(ev, m1)
+                  ELSE Consume /\ mon' = (IF l' = l THEN mon ELSE m1)
+       \/ vkind = "FOREIGN" /\ MonTail
     /\ UNCHANGED tid
 
 TSpec == TInit /\ [][TStep]_tvars
